@@ -30,34 +30,32 @@ static int fixedEp(const Brd& b) {
 }
 
 #ifdef ABSLIST
-// Compositional variant: pseudoLegalMoves followed by removeIllegal is replaced by its contract (C01 O2/O3: the list holds legal moves only and no legal move is
-// missing): an arbitrary list of at most MAXL legal moves that contains every legal move onto the en-passant square.  What remains real is fixupEPSquare's own
-// scan (destination == ep square, moving piece is a pawn of the side to move) and the ep-square/hash update.
-#ifndef MAXL
-#define MAXL 4
+// Compositional variant: pseudoLegalMoves followed by removeIllegal is replaced by its contract (C01 O2/O3: the list holds exactly the legal moves).  The scan of
+// fixupEPSquare looks at an entry only if its destination is the en-passant square, so the list is modelled as: every legal move onto the ep square (one candidate
+// per man, decided by the oracle), interleaved in any way with up to MAXX arbitrary entries that go elsewhere.  What remains real is fixupEPSquare's own scan
+// (destination == ep square, moving piece is a pawn of the side to move) and the ep-square/hash update.
+#ifndef MAXX
+#define MAXX 2
 #endif
 static Brd gB; static bool listBoardMismatch;
 extern "C" void model_legalList(const Position& pos, MoveList& ml) {
     bool same = pos.isWhiteMove() == gB.wtm && pos.getCastleMask() == gB.castle && pos.getEpSquare().asInt() == gB.ep;
     for (int i = 0; i < 64; i++) same = same && pos.getPiece(Square(i)) == pieceAt(gB, i);
     if (!same) listBoardMismatch = true;
-    int n = nondet_int(); ASSUME(n >= 0 && n <= MAXL);
     ml.size = 0;
-    int lf[MAXL], lt[MAXL];
-    for (int i = 0; i < MAXL; i++) {
-        lf[i] = lt[i] = -1;
-        if (i < n) {
-            int from = nondet_int(), to = nondet_int(), prom = nondet_int(); bool gc;
-            ASSUME(from >= 0 && from < 64 && to >= 0 && to < 64 && prom >= 0 && prom <= 12);
-            ASSUME(legalMove(gB, from, to, prom, gc));
-            ml.addMove(Square(from), Square(to), prom); lf[i] = from; lt[i] = to;
+    int extras = 0;
+    for (int k = 0; k <= NMEN; k++) {
+        // arbitrary other entries before / between / after the moves onto the ep square
+        for (int e = 0; e < MAXX; e++) {
+            if (extras < MAXX && nondet_bool()) {
+                int from = nondet_int(), to = nondet_int(), prom = nondet_int();
+                ASSUME(from >= 0 && from < 64 && to >= 0 && to < 64 && to != gB.ep && prom >= 0 && prom <= 12);
+                ml.addMove(Square(from), Square(to), prom); extras++;
+            }
         }
-    }
-    for (int k = 0; k < NMEN; k++) {                      // no legal move onto the ep square is missing
+        if (k == NMEN) break;
         if (gB.men[k].p == 0) continue;
-        bool gc; if (!legalMove(gB, gB.men[k].s, gB.ep, 0, gc)) continue;
-        bool listed = false; for (int i = 0; i < MAXL; i++) listed = listed || (lf[i] == gB.men[k].s && lt[i] == gB.ep);
-        ASSUME(listed);
+        bool gc; if (legalMove(gB, gB.men[k].s, gB.ep, 0, gc)) ml.addMove(Square(gB.men[k].s), Square(gB.ep), 0);
     }
 }
 extern "C" void model_removeIllegalNop(Position& pos, MoveList& ml) {}
